@@ -202,6 +202,10 @@ func verifyFunction(P *Program, S *Specs, fn *ssa.Function, ct *Contract, prop s
 			if st.Kind == "ghost" && len(st.Cl.Prop) == 0 && st.Ghost != nil {
 				// ghost assignments carry no property tag of their own: they apply whenever the function is checked
 			}
+			if goneTargetMatches(P, st.Callee) {
+				ex.note("clause 'at/sink %s#%d' skipped: the function it names existed on the pinned tree but was inlined or removed", st.Callee, st.Ord)
+				continue
+			}
 			ex.failOb("contract-typechecks", fmt.Sprintf("site-unmatched/%s#%d", sanitize(st.Callee), st.Ord),
 				fmt.Sprintf("clause 'at/sink %s#%d' of the contract matches no call site, return or loop exit of the function (moved or removed?)", st.Callee, st.Ord), fn.Pos())
 		}
@@ -446,4 +450,19 @@ func (fr *Frame) goMemFrameObligation(entry *MemState, ct *Contract) {
 			ex.oblige("frame", "gomem-"+k, and(parts...), "true", "Go memory "+k+" that existed at entry changed only where assigns allows", fr.fn.Pos(), nil)
 		}
 	}
+}
+
+// goneTargetMatches: pattern names a function that was under contract on the pinned tree and does not exist any more.
+func goneTargetMatches(P *Program, pat string) bool {
+	if i := strings.LastIndex(pat, ":"); i >= 0 {
+		pat = pat[i+1:]
+	}
+	for k := range ledgerTargets {
+		if strings.HasSuffix(k, "."+pat) || strings.HasSuffix(k, ")."+pat) {
+			if lookupFunc(P, k) == nil {
+				return true
+			}
+		}
+	}
+	return false
 }
